@@ -22,6 +22,7 @@ import vlib
 from vlib import hexd
 
 GM, GA, PS = 0, 1, 2
+WIDE = 1 << 31
 KIND = {GM: "GaussianMixture", GA: "Gaussian", PS: "ParticleSet"}
 
 
@@ -230,7 +231,7 @@ def p_wf(d):
         bad.append(("wf:state-storage", "state storage %dx%d, declared (dim - noise) x components = %dx%d" % (d.sr, d.sc, d.dim - d.n, d.k)))
     if d.kind == GA and d.k != 1:
         bad.append(("wf:gaussian-components", "Gaussian with %d components" % d.k))
-    if d.k < 1:
+    if d.k < 0:
         bad.append(("wf:components", "components=%d" % d.k))
     if d.acc != expected_acc(d):
         bad.append(("accessor-block", "a per-component accessor does not address its component's block: got %s expected %s" % (
@@ -277,7 +278,7 @@ def p_op(op, ret, d, prev):
             k = 1
         if (d.kind, d.k, d.l, d.c, d.q, d.n) != (kind, k, l, c, q, 0):
             bad.append(("ctor-layout", "constructed %s, requested components=%d linear=%d circular=%d quat=%d" % (d.brief(), k, l, c, q)))
-        w = val_tok(1.0 / k)
+        w = val_tok(1.0 / k) if k else "-"
         if any(x != w for x in d.weight):
             bad.append(("ctor-weights", "new mixture does not start with uniform weights 1/%d: %s" % (k, " ".join(d.weight)[:120])))
         return bad
@@ -353,7 +354,7 @@ def p_op(op, ret, d, prev):
                 bad.append(("augment-cov", "component %d: covariance is not blockdiag(P, Q) (P block %s, Q block %s, zero blocks %s)" % (
                     i, "ok" if okP else "wrong", "ok" if okQ else "wrong", "ok" if okZ else "wrong")))
         return bad
-    if t in ("PE", "PL"):
+    if t in ("PE", "PL", "PA"):
         a_, b_ = (prev.get(op[1]), prev.get(op[2])) if t == "PE" else (prev.get(op[2]), prev.get(op[3]))
         if a_ is None or b_ is None or not (wf_ok(a_) and wf_ok(b_)):
             return bad
@@ -372,6 +373,8 @@ def p_op(op, ret, d, prev):
         bad.append(("write-layout", "an element write changed the layout: %s -> %s" % (old.brief(), d.brief())))
         return bad
     exp = {"mean": list(old.mean), "cov": list(old.cov), "weight": list(old.weight), "state": list(old.state)}
+    if t in ("WM", "WC", "WW", "WS") and any(x >= WIDE for x in op[3:-1]):
+        return bad          # reported as accessor-index-range
     if t == "WM":
         exp["mean"][op[3] * d.mr + op[4]] = val_tok(op[5])
     elif t == "WC":
@@ -421,7 +424,9 @@ def branches(op, old, prev):
     if t in ("CP", "SL"):
         return ["copy:%s" % ("construct" if t == "CP" and op[3] == 0 else ("self-assign" if op[1] == op[2] else "assign") if t == "CP" else "slice")]
     if t == "MV":
-        return ["move:%s" % ("construct" if op[3] == 0 else "assign")]
+        src, dst = prev.get(op[2]), prev.get(op[1])
+        return ["move:%s%s%s" % ("construct" if op[3] == 0 else "assign", ":noise%d" % src.n if src is not None and src.n else "",
+                                 ":over-other-noise" if op[3] == 1 and src is not None and dst is not None and dst.kind == src.kind and dst.n != src.n else "")]
     if t == "BA":
         a_, b_ = prev.get(op[1]), prev.get(op[2])
         if a_ is None or b_ is None:
@@ -458,16 +463,21 @@ def branches(op, old, prev):
     if t == "AU":
         if op[2] != op[3]:
             return ["augment:non-square"]
+        if old.k == 0:
+            return ["augment:square:zero-components(assert)"]
         return ["augment:square:%s:%s%s" % ("one-component" if old.k == 1 else "relocation", "first" if old.n == 0 else "repeated",
                                            ":zero-rows" if op[2] == 0 else "") + (":dim_old=0" if old.dcov == 0 else "")]
-    if t in ("PE", "PL"):
+    if t in ("PE", "PL", "PA"):
         a_, b_ = (prev.get(op[1]), prev.get(op[2])) if t == "PE" else (prev.get(op[2]), prev.get(op[3]))
         if a_ is None or b_ is None:
             return []
         okc = (a_.sr == b_.sr and a_.mr == b_.mr and a_.cr == b_.cr and b_.cc == a_.dcov * b_.k)
-        return ["concat:%s%s:%s" % ("+=" if t == "PE" else "+", ":self" if a_ is b_ else "", "accepted" + (":layouts-differ" if (a_.l, a_.c, a_.n) != (b_.l, b_.c, b_.n) else "") if okc else "rejected(assert)")]
+        extra = (":empty-operand" if 0 in (a_.k, b_.k) else "") + (":noise%d" % a_.n if a_.n else "")
+        if t == "PA" and old is not None:
+            extra += ":into-existing" + (":other-noise" if old.n != a_.n else "")
+        return ["concat:%s%s%s:%s" % ({"PE": "+=", "PL": "+", "PA": "=+"}[t], ":self" if a_ is b_ else "", extra, "accepted" + (":layouts-differ" if (a_.l, a_.c, a_.n) != (b_.l, b_.c, b_.n) else "") if okc else "rejected(assert)")]
     if t in ("WM", "WC", "WW", "WS"):
-        return ["write:%s:mode%d" % (t, op[2])]
+        return ["write:%s:mode%d%s" % (t, op[2], ":zero-components" if old.k == 0 else "")]
     return ["fill"]
 
 
@@ -509,7 +519,8 @@ def evaluate(ops, line, h, d):
         ret, dump = st
         r["branches"] += branches(op, prev.get(op[1]), prev)
         t = op[0]
-        srcs = {"CP": [op[2]], "SL": [op[2]], "MV": [op[2]], "PE": [op[1], op[2]], "PL": [op[2], op[3]] if t == "PL" else []}.get(t, [op[1]])
+        srcs = {"CP": [op[2]], "SL": [op[2]], "MV": [op[2]], "PE": [op[1], op[2]], "PL": [op[2], op[3]] if t == "PL" else [],
+                "PA": [op[2], op[3]] if t == "PA" else []}.get(t, [op[1]])
         if t in ("D", "C2", "C4"):
             srcs = []
         tainted = any(x in taint for x in srcs)
@@ -540,6 +551,11 @@ def evaluate(ops, line, h, d):
             r["viol"].append(("frame", "an operation modified an object other than its destination (slot %d)" % s))
     # correspondence with the model
     if d == "crash:assert":
+        wide = [o for o in ops if o[0] in ("WM", "WC", "WW", "WS") and any(isinstance(x, int) and x >= WIDE for x in o[3:-1])]
+        if wide:
+            r["viol"].append(("accessor-index-range", "an element accessor accepted an index far outside the storage (%s) instead of stopping in the range "
+                              "assertion: the index is narrowed or wrapped on its way to the storage, so it addresses another component's block" % " ".join(render(wide[0])[:-1])))
+            return r
         r["note"] = "model-assert-impl-continues"
         return r
     if not d.startswith("ok"):
@@ -696,9 +712,21 @@ def _work(job):
 
 # --------------------------------------------------------------------------- generators
 
-GRID_FULL = {"k": (1, 2, 3, 4), "l": (0, 1, 2, 3, 4), "c": (0, 1, 2)}
-GRID_SMALL = {"k": (1, 2, 3), "l": (0, 1, 2), "c": (0, 1)}
-GRID_TINY = {"k": (1, 2), "l": (0, 2), "c": (0, 1)}
+GRID_FULL = {"k": (0, 1, 2, 3, 4), "l": (0, 1, 2, 3, 4), "c": (0, 1, 2)}
+GRID_SMALL = {"k": (0, 1, 2, 3), "l": (0, 1, 2), "c": (0, 1)}
+GRID_TINY_3 = {"k": (1, 2), "l": (2,), "c": (0, 1)}
+GRID_TINY = {"k": (0, 1, 2), "l": (0, 2), "c": (0, 1)}
+GRID_TINY_Q = {"k": (1, 2), "l": (0, 2), "c": (0, 1)}
+GRID_TINY_Z = {"k": (0, 2), "l": (2,), "c": (0, 1)}
+
+
+def quick_select(lay0, n0):
+    """quick tier, depth 1: initial noise 0 and 2 with the whole alphabet, 1 and 3 without the grid of resize targets; layouts with 0
+    components with initial noise 0..1 (the thorough tier runs everything)"""
+    if lay0.k == 0:
+        return "full" if n0 <= 1 else None
+    return "full" if n0 in (0, 2) else "noresize"
+
 
 
 def qmat(a_r, a_c, tag=0):
@@ -731,18 +759,25 @@ class Lay:
         return self.dim - self.n == o.dim - o.n and self.dim == o.dim and self.dcov == o.dcov
 
 
-def build_like(lay, slot, k, stamp):
-    """ops constructing in `slot` a particle set of lay's layout (incl. its noise) with k components, filled"""
-    ops = [("C4", slot, PS, k, lay.l, lay.c, lay.q)]
+def build_like(lay, slot, k, stamp, kind=PS, tag=7):
+    """ops constructing in `slot` a particle set (or `kind`) of lay's layout (incl. its noise) with k components, filled.
+    With 0 components and noise the object is built with one component, augmented and then resized to 0
+    (augmentWithNoise on 0 components does not return)."""
+    k0 = 1 if (k == 0 and lay.n) else k
+    ops = [("C4", slot, kind, k0, lay.l, lay.c, lay.q)]
     if lay.n:
-        ops.append(("AU", slot, lay.n, lay.n, qmat(lay.n, lay.n, 7)))
+        ops.append(("AU", slot, lay.n, lay.n, qmat(lay.n, lay.n, tag)))
+    if k0 != k and kind != GA:
+        ops.append(("RS", slot, k, lay.l, lay.c))
     ops.append(("FI", slot, stamp))
     return ops
 
 
-def alphabet(lay, grid, full=True):
+def alphabet(lay, grid, full=True, resize_grid=True):
     """all single steps applied to the object in slot 0 with layout `lay` -> list of (op list, resulting Lay or None when the sequence ends)"""
     out = []
+    if not resize_grid:
+        grid = {"k": (), "l": (), "c": ()}
     if lay.kind == GA:
         for l2 in grid["l"]:
             for c2 in grid["c"]:
@@ -760,6 +795,11 @@ def alphabet(lay, grid, full=True):
         out.append(([("R2", 0, n.k, lay.l)], n))
     for a in (0, 1, 2, 3):
         n = lay.copy(); n.n += a
+        if lay.k == 0:
+            # `components - 1` wraps: Eigen assertion; with 0 rows and a 0 x 0 matrix the call loops 2^64 times (excluded)
+            if lay.dcov + a > 0 and a in (0, 2):
+                out.append(([("AU", 0, a, a, qmat(a, a))], None))
+            continue
         out.append(([("AU", 0, a, a, qmat(a, a))], n))
     for (r, c) in ((1, 2), (2, 1), (0, 1)):
         out.append(([("AU", 0, r, c, qmat(r, c))], lay.copy()))
@@ -772,26 +812,41 @@ def alphabet(lay, grid, full=True):
     # hand-over: move out and back (construction), move assignment over another layout and back
     out.append(([("MV", 1, 0, 0), ("FI", 1, 9), ("MV", 0, 1, 0)], lay.copy()))
     out.append(([other.ctor(1), ("MV", 1, 0, 1), ("MV", 0, 1, 1)], lay.copy()))
+    # move assignment into an existing object whose dim_noise differs (0 <-> 2), every observation on the moved-to object, and back
+    if full:
+        on = Lay(lay.kind, 3, lay.l, lay.c, lay.q, 0 if lay.n else 2)
+        out.append((build_like(on, 1, on.k, 6, kind=lay.kind, tag=4) + [("MV", 1, 0, 1), ("FI", 1, 9), ("MV", 0, 1, 0)], lay.copy()))
     # assignment through base references from a mixture / particle set of the same sizes (what pred = prev does)
     for skind in (GM, PS):
-        src = Lay(skind, lay.k, lay.l, lay.c, lay.q, lay.n)
-        ops1 = [src.ctor(1)] + ([("AU", 1, lay.n, lay.n, qmat(lay.n, lay.n, 5))] if lay.n else []) + [("FI", 1, 8), ("BA", 0, 1)]
-        out.append((ops1, lay.copy()))
+        out.append((build_like(lay, 1, lay.k, 8, kind=skind, tag=5) + [("BA", 0, 1)], lay.copy()))
     if lay.kind == GM:                                                              # gm = ps of another layout (slicing assignment)
         src = Lay(PS, lay.k % 4 + 1, (lay.l + 1) % 5, lay.c, lay.q)
         n = src.copy(); n.kind = GM
         out.append(([src.ctor(1), ("FI", 1, 8), ("BA", 0, 1)], n))
     # augmentWithNoise with the object's own first / last covariance block as argument
-    for i0 in sorted(set((0, lay.k - 1))):
+    for i0 in sorted(set((0, max(lay.k - 1, 0)))):
+        if lay.k == 0:
+            if lay.dcov > 0:                         # covariance(0) of an empty mixture: assertion
+                out.append(([("AA", 0, 0)], None))
+            continue
         if lay.n + lay.dcov <= 8:
             n = lay.copy(); n.n += lay.dcov
             out.append(([("AA", 0, i0)], n))
     if not full:
-        return out + concat_steps(lay, (2,))
-    out.append(([("AU", 0, 2, 2, [[float("inf"), -0.0], [float("nan"), 1e-310]])], Lay(lay.kind, lay.k, lay.l, lay.c, lay.q, lay.n + 2)))
+        return out + concat_steps(lay, (0, 2) if lay.k == 0 else (2,), full=False)
+    out.append(([("AU", 0, 2, 2, [[float("inf"), -0.0], [float("nan"), 1e-310]])], None if lay.k == 0 else Lay(lay.kind, lay.k, lay.l, lay.c, lay.q, lay.n + 2)))
     # element writes through every accessor variant, last component / last row
     i, v = lay.k - 1, 7.625
     modes = (0, 1, 2) if lay.kind == GA else (0, 1)
+    if lay.k == 0:                                  # every index is out of range: assertion
+        out.pop()
+        for m in modes[:1] if lay.n else modes:
+            out.append(([("WM", 0, m, 0, 0, v)], None))
+            out.append(([("WC", 0, m, 0, 0, 0, v)], None))
+            out.append(([("WW", 0, m, 0, v)], None))
+        if lay.kind == PS:
+            out.append(([("WS", 0, 0, 0, 0, v)], None))
+        return out + concat_steps(lay, (0, 1, 2, 3, 4))
     for m in modes:
         if lay.dim > 0:
             out.append(([("WM", 0, m, i, lay.dim - 1, v)], lay.copy()))
@@ -802,19 +857,81 @@ def alphabet(lay, grid, full=True):
     if lay.kind == PS and lay.dim - lay.n > 0:
         for m in (0, 1):
             out.append(([("WS", 0, m, i, lay.dim - lay.n - 1, v)], lay.copy()))
-    return out + concat_steps(lay, (1, 2, 3, 4))
+    return out + concat_steps(lay, (0, 1, 2, 3, 4))
 
 
-def concat_steps(lay, ks):
+def _s64(x):
+    x &= (1 << 64) - 1
+    return x - (1 << 64) if x >> 63 else x
+
+
+def wide_writes(lay, short=False):
+    """element writes with one index taken from the whole std::size_t range.  Kept only where the address arithmetic of the
+    accessor does not wrap back into the storage (`dim_covariance * i + k` modulo 2^64: size_t overflow is outside the model)"""
+    out = []
+    v = 3.5
+    k, dim, dc, sd = lay.k, lay.dim, lay.dcov, lay.dim - lay.n
+    bigs = lambda valid: [(1 << 31) + valid, (1 << 32) + valid, (1 << 64) - 1] + ([] if short else [1 << 31, 1 << 32, (1 << 32) + 1, (1 << 63) + valid, (1 << 64) - 2])
+    modes = (0, 1, 2) if lay.kind == GA else (0, 1)
+    ci, cj = max(k - 1, 0), max(dim - 1, 0)
+    for m in modes:
+        if m != 2:
+            out += [("WM", 0, m, b, cj, v) for b in bigs(ci)]
+        out += [("WM", 0, m, 0 if m == 2 else ci, b, v) for b in bigs(cj)]
+        if m != 2:
+            out += [("WW", 0, m, b, v) for b in bigs(ci)]
+        cd = max(dc - 1, 0)
+        for b in bigs(ci):
+            start = _s64(dc * b)
+            if m == 2:
+                continue
+            if m == 0 and 0 <= _s64(dc * b + cd) < dc * k:
+                continue            # wraps onto a valid column
+            if m == 1 and 0 <= start <= dc * k - dc:
+                continue
+            out.append(("WC", 0, m, b, cd, cd, v))
+        for b in bigs(cd):
+            out.append(("WC", 0, m, 0 if m == 2 else ci, b, cd, v))
+            if m == 0 and 0 <= _s64(dc * ci + b) < dc * k:
+                continue
+            out.append(("WC", 0, m, 0 if m == 2 else ci, cd, b, v))
+    if lay.kind == PS:
+        for m in (0, 1):
+            out += [("WS", 0, m, b, max(sd - 1, 0), v) for b in bigs(ci)]
+            out += [("WS", 0, m, ci, b, v) for b in bigs(max(sd - 1, 0))]
+    return out
+
+
+def concat_steps(lay, ks, full=True):
     out = []
     if lay.kind != PS or lay.k > 8:
         return out
     for k2 in ks:
         n = lay.copy(); n.k += k2
         out.append((build_like(lay, 1, k2, 5) + [("PE", 0, 1)], n))
-    for k2 in ks[:2]:
+        if k2 == 0 and full:
+            n = lay.copy()
+            out.append((build_like(lay, 1, 0, 5) + [("PE", 1, 0), ("CP", 0, 1, 1)], n))      # empty += a
+            out.append((build_like(lay, 1, 0, 5) + [("PL", 0, 1, 0)], lay.copy()))           # empty + a
+    for k2 in [x for x in ks if x][:2]:
         n = lay.copy(); n.k += k2
-        out.append((build_like(lay, 1, k2, 5) + [("PL", 0, 0, 1)], n))
+        out.append((build_like(lay, 1, k2, 5) + [("PL", 0, 0, 1)], n))                        # result replaces a (new object)
+        n = lay.copy(); n.k += k2
+        out.append((build_like(lay, 1, k2, 5) + [("PA", 0, 0, 1)], n))                        # a = a + b (move assignment of the returned value)
+        if not full:
+            continue
+        # a + b landing in a fresh slot and in an existing particle set whose dim_noise differs
+        n = lay.copy(); n.k += k2
+        on = Lay(PS, 2, lay.l, lay.c, lay.q, 0 if lay.n else 1)
+        out.append((build_like(lay, 1, k2, 5) + [("PL", 2, 0, 1), ("FI", 2, 6), ("CP", 0, 2, 1)], n))
+        out.append((build_like(lay, 1, k2, 5) + build_like(on, 2, 2, 6, tag=2) + [("PA", 2, 0, 1), ("FI", 2, 6), ("MV", 0, 2, 1)], n))
+    # only one operand augmented: sizes differ, assertion (a 0 x 0 augmentation changes nothing: accepted)
+    if lay.k >= 1 and full:
+        one = lay.copy(); one.n += 1
+        out.append((build_like(one, 1, 2, 5) + [("PL", 2, 0, 1)], None))
+        out.append((build_like(one, 1, 2, 5) + [("PL", 2, 1, 0)], None))
+        n = lay.copy(); n.k += 2
+        out.append((build_like(lay, 1, 2, 5) + [("AU", 1, 0, 0, []), ("PL", 0, 0, 1)], n))
     n = lay.copy(); n.k *= 2
     out.append(([("PL", 0, 0, 0)], n))                      # a + a is legal (lhs by value)
     n = lay.copy(); n.k *= 2
@@ -829,6 +946,45 @@ def concat_steps(lay, ks):
         o = Lay(PS, 2, lay.l + 4 * lay.c, 0, 0, lay.n)
         out.append((build_like(o, 1, 2, 5) + [("PE", 0, 1)], None))
     return out
+
+
+def enum_wide(quick):
+    """element writes with one index from the whole std::size_t range on filled, possibly augmented objects: one case per write"""
+    for kind in (GM, GA, PS):
+        for k in ((2,) if quick else (1, 2, 3)):
+            for l in ((2,) if quick else (0, 2)):
+                for c in (0, 1):
+                    for q in (0, 1):
+                        for n in (0, 1):
+                            if kind == GA and k != 2:
+                                continue
+                            lay = Lay(kind, k, l, c, q, n)
+                            base = build_like(lay, 0, lay.k, 1, kind=kind)
+                            for w in wide_writes(lay, short=quick):
+                                yield base + [w]
+
+
+def enum_shapes(quick):
+    """one object driven through non-monotone shapes in one process (2 x 100, then 5 x 11, and back: rows grow while the number of
+    coefficients shrinks), and component counts at 64 / 128 / 256 ... +- 1 reached by construction, resize and concatenation"""
+    ks = (63, 64, 65, 128, 257) if quick else (63, 64, 65, 127, 128, 129, 255, 256, 257, 511, 512, 513, 1023, 1024, 1025)
+    for kind in (GM, PS):
+        for la, lb in (((2, 0, 0), (5, 0, 0)), ((1, 1, 0), (3, 2, 0)), ((2, 0, 1), (1, 1, 1))):
+            for n0 in (0, 1):
+                ops = [("C4", 0, kind, 100, la[0], la[1], la[2]), ("FI", 0, 1)]
+                if n0:
+                    ops += [("AU", 0, 1, 1, qmat(1, 1)), ("FI", 0, 2)]
+                ops += [("RS", 0, 11, lb[0], lb[1]), ("FI", 0, 3), ("RS", 0, 100, la[0], la[1]), ("FI", 0, 4), ("RS", 0, 11, lb[0], lb[1]),
+                        ("FI", 0, 5), ("RS", 0, 12, lb[0], lb[1]), ("FI", 0, 6), ("RS", 0, 100, la[0], la[1]), ("RS", 0, 0, la[0], la[1]),
+                        ("RS", 0, 11, lb[0], lb[1]), ("FI", 0, 7)]
+                yield ops
+        for k in ks:
+            for (l, c, q) in ((2, 0, 0), (1, 1, 1), (0, 1, 0)):
+                yield [("C4", 0, kind, k, l, c, q), ("FI", 0, 1), ("RS", 0, k + 1, l, c), ("FI", 0, 2), ("AU", 0, 1, 1, qmat(1, 1)),
+                       ("RS", 0, k - 1, l, c), ("FI", 0, 3), ("CP", 1, 0, 0), ("RS", 0, 2, l + 1, c), ("RS", 0, k, l, c), ("FI", 0, 4), ("MV", 2, 0, 0)]
+                if kind == PS:
+                    yield [("C4", 0, PS, k - 2, l, c, q), ("AU", 0, 1, 1, qmat(1, 1)), ("FI", 0, 1), ("C4", 1, PS, 2, l, c, q), ("AU", 1, 1, 1, qmat(1, 1, 2)),
+                           ("FI", 1, 2), ("PL", 2, 0, 1), ("PE", 0, 1), ("C4", 3, PS, 1, l, c, q), ("AU", 3, 1, 1, qmat(1, 1, 3)), ("PA", 0, 0, 3), ("PA", 2, 2, 3)]
 
 
 def layouts(grid, kinds=(GM, GA, PS)):
@@ -863,32 +1019,42 @@ def enum_ctor_overloads():
     cases = []
     for kind in (GM, GA, PS):
         cases.append([("D", 0, kind)])
-        for k in (1, 2, 3, 4):
+        for k in (0, 1, 2, 3, 4):
             for d in (0, 1, 2, 3, 4):
                 if kind == GA and k > 1:
                     continue
                 cases.append([("C2", 0, kind, k, d)])
+                cases.append([("C2", 0, kind, k, d), ("FI", 0, 1), ("CP", 1, 0, 0), ("MV", 2, 1, 0), ("RS", 2, 0, d, 0), ("RS", 2, 3, d, 0), ("FI", 2, 2)])
     return cases
 
 
-def enum_depth(grid, depth, noise=(0,), full=True, kinds=(GM, GA, PS)):
+def enum_depth(grid, depth, noise=(0,), full=True, kinds=(GM, GA, PS), select=None, lay_k=None):
     """constructor (+ optional first augmentation giving the layout `noise` rows) followed by `depth` steps of the
     alphabet, every step preceded by a fill of the object with fresh recognisable values (generator)"""
-    def rec(prefix, lay, left, stamp):
-        for steps, nxt in alphabet(lay, grid, full):
+    def rec(prefix, lay, left, stamp, rg=True):
+        for steps, nxt in alphabet(lay, grid, full, rg):
             seq = prefix + steps
             if left == 1 or nxt is None:
                 yield seq
             else:
                 yield from rec(seq + [("FI", 0, stamp)], nxt, left - 1, stamp + 1)
     for lay0 in layouts(grid, kinds):
+        if lay_k is not None and lay0.k not in lay_k:
+            continue
         for n0 in noise:
+            how = select(lay0, n0) if select else "full"
+            if how is None:
+                continue
             base = [lay0.ctor(0), ("FI", 0, 1)]
             lay = lay0.copy()
             if n0:
+                if lay0.k == 0:                     # noise on an empty container: augment one component, then resize to 0
+                    base = [("C4", 0, lay0.kind, 1, lay0.l, lay0.c, lay0.q), ("FI", 0, 1)]
                 base += [("AU", 0, n0, n0, qmat(n0, n0, 3)), ("FI", 0, 2)]
+                if lay0.k == 0:
+                    base += [("RS", 0, 0, lay0.l, lay0.c)]
                 lay.n = n0
-            yield from rec(base, lay, depth, 10)
+            yield from rec(base, lay, depth, 10, how == "full")
 
 
 def gen_random(g, maxlen):
@@ -904,7 +1070,7 @@ def gen_random(g, maxlen):
 
     def new_obj(slot):
         kind = r.choice((GM, GM, GA, PS, PS, PS))
-        lay = Lay(kind, r.randint(1, 4), r.randint(0, 4), r.randint(0, 2), r.randint(0, 1))
+        lay = Lay(kind, 0 if r.random() < 0.06 else r.randint(1, 4), r.randint(0, 4), r.randint(0, 2), r.randint(0, 1))
         form = r.random()
         if form < 0.08:
             lay = Lay(kind, 1, 1, 0, 0); ops.append(("D", slot, kind))
@@ -930,7 +1096,7 @@ def gen_random(g, maxlen):
                     l2, c2 = lay.l, lay.c
                 ops.append(("G1", slot, l2) if (c2 == 0 and r.random() < 0.5) else ("GR", slot, l2, c2)); lay.l, lay.c = l2, c2
             else:
-                k2, l2, c2 = r.randint(1, 4), r.randint(0, 4), r.randint(0, 2)
+                k2, l2, c2 = (0 if r.random() < 0.06 else r.randint(1, 4)), r.randint(0, 4), r.randint(0, 2)
                 y = r.random()
                 if y < 0.45:
                     l2, c2 = lay.l, lay.c                  # only the component count
@@ -943,6 +1109,10 @@ def gen_random(g, maxlen):
             if r.random() < 0.12:
                 qr, qc = r.choice(((1, 2), (2, 1), (0, 2), (3, 1)))
                 ops.append(("AU", slot, qr, qc, qmat(qr, qc, r.randint(0, 9))))
+            elif lay.k == 0:
+                if lay.dcov > 0 and len(ops) >= n - 2:
+                    ops.append(("AU", slot, 1, 1, qmat(1, 1))); return ops      # 0 components: assertion ends the sequence
+                continue
             elif lay.n <= 4:
                 a = r.choice((0, 1, 1, 2, 2, 3))
                 ops.append(("AU", slot, a, a, qmat(a, a, r.randint(0, 9)))); lay.n += a
@@ -950,8 +1120,14 @@ def gen_random(g, maxlen):
                 continue
         elif x < 0.74:
             dst = r.randint(0, 2)
-            if r.random() < 0.15:
+            y = r.random()
+            if y < 0.15:
                 ops.append(("SL", dst, slot)); nl = lay.copy(); nl.kind = GM; lays[dst] = nl
+            elif y < 0.4:
+                if dst == slot:
+                    continue
+                ops.append(("MV", dst, slot, r.randint(0, 1))); lays[dst] = lay; del lays[slot]
+                continue
             else:
                 ops.append(("CP", dst, slot, r.randint(0, 1))); lays[dst] = lay.copy()
         elif x < 0.9:
@@ -975,8 +1151,10 @@ def gen_random(g, maxlen):
             else:
                 dst = r.randint(0, 2)
                 nl = lay.copy(); nl.k = lay.k + lays[other].k
-                ops.append(("PL", dst, slot, other)); lays[dst] = nl
+                ops.append(("PA" if (dst in lays and lays[dst].kind == PS and r.random() < 0.5) else "PL", dst, slot, other)); lays[dst] = nl
         else:
+            if lay.k == 0:
+                continue
             i = r.randint(0, lay.k - 1)
             v = r.choice((0.0, -0.0, 1.5, -3.25, 1e300, 5e-324, r.uniform(-10, 10)))
             w = r.random()
@@ -1073,7 +1251,11 @@ RULE_A = ("alphabet A = {self-assignment a = a, move construction out and back, 
           "base-class copy each followed by a fill of the copy, element writes through every accessor variant at the last component's last row and column, and for "
           "particle sets: += and + with a set of the same layout and 1..4 (resp. 1..2) components, a + a, a += a, += with a larger layout (assertion), "
           "+= with the other Euler split of the same size (accepted), += of an Euler set of the same total size to a quaternion set (assertion)}; "
-          "reduced alphabet A' = A without the element writes and with concatenation operands of 2 components only")
+          "reduced alphabet A' = A without the element writes and with concatenation operands of 2 components only (0 and 2 from a 0-component layout) and without the move over another noise size; "
+          "round 4: move assignment over an existing object of another noise size (every observation on the moved-to object) and back; for particle sets a + b into a new object, "
+          "a = a + b (assignment of the returned value), a + b into a fresh slot and into an existing set of another noise size, empty += a, empty + a, a += empty, "
+          "+ with only one operand augmented (assertion, both orders) and with one operand augmented by a 0 x 0 matrix (accepted); on 0 components: augmentWithNoise / own-block "
+          "augmentation / element access (assertion)")
 
 
 def run(ctx):
@@ -1099,11 +1281,12 @@ def run(ctx):
     if corpus.exists():
         cs = [parse_line(ln.strip()) for ln in corpus.read_text().split("\n") if ln.strip() and not ln.startswith("#")]
         sets.append(("corpus", "regression corpus corpus/C11/cases.txt (witnesses of the defects fixed by 668e0de, ad6ea89, 2c84227 and boundary cases)", cs, False))
-    sets.append(("ctor-overloads", "EXHAUSTIVE: every constructor overload of the three classes: default; (components 1..4, dim 0..4); Gaussian(dim 0..4)", enum_ctor_overloads(), True))
+    sets.append(("ctor-overloads", "EXHAUSTIVE: every constructor overload of the three classes: default; (components 0..4, dim 0..4); Gaussian(dim 0..4); each also followed by fill, copy, move, resize to 0 components and back to 3", enum_ctor_overloads(), True))
     sets.append(("depth1-full-grid",
-                 "EXHAUSTIVE: for every class and every layout of the property's grid (components 1..4 [Gaussian: 1], linear 0..4, circular 0..2, Euler/quaternion) and "
-                 "every initial noise size 0..3 (obtained by one augmentWithNoise): construct, fill with recognisable values, then every single step of A", 
-                 enum_depth(GRID_FULL, 1, noise=(0, 1, 2, 3)), True))
+                 "EXHAUSTIVE: for every class and every layout of the property's grid (components 0..4 [Gaussian: 1], linear 0..4, circular 0..2, Euler/quaternion) and "
+                 "every initial noise size 0..3 (obtained by one augmentWithNoise): construct, fill with recognisable values, then every single step of A"
+                 + (" [quick tier: initial noise 1 and 3 without the grid of resize targets; 0-component layouts with initial noise 0..1]" if quick else ""), 
+                 enum_depth(GRID_FULL, 1, noise=(0, 1, 2, 3), select=quick_select if quick else None), True))
     sets.append(("base-reference-misuse",
                  "EXHAUSTIVE over its small grid (linear {0,2}, circular 0..1, Euler/quaternion): a Gaussian resized through GaussianMixture& to 1..3 components, and "
                  "assignment through base references of a 1- or 3-component mixture of another size onto a 1..2-component particle set / a Gaussian, each followed by "
@@ -1111,19 +1294,37 @@ def run(ctx):
     sets.append(("beyond-grid",
                  "EXHAUSTIVE: every single step of A from layouts beyond the property's grid chosen for coincidences (components {5,17}, linear {5,8}, circular {0,3}, "
                  "Euler/quaternion, all classes; resize targets from the same set)", enum_depth(GRID_BEYOND, 1, noise=(0,)), True))
+    sets.append(("wide-indices",
+                 "EXHAUSTIVE over its grid (quick: components 2, linear 2, circular 0..1, Euler/quaternion, noise 0..1, all classes; thorough: components 1..3, linear {0,2}): "
+                 "every element accessor variant (mean(i,j), mean(i)(j), covariance(i,j,k), covariance(i)(j,k), weight(i), weight()(i), state(i,j), state(i)(j), Gaussian's own) "
+                 "with one index taken from {2^31 + v, 2^32 + v, 2^64 - 1} (thorough also 2^31, 2^32, 2^32 + 1, 2^63 + v, 2^64 - 2), v the largest valid value, parsed with strtoull; "
+                 "the model predicts the range assertion; an implementation that continues is a violation (accessor-index-range). Index combinations whose address arithmetic "
+                 "wraps modulo 2^64 back into the storage are left out (size_t overflow is outside the model)", enum_wide(quick), True))
+    sets.append(("nonmonotone-shapes",
+                 "one object in one process through 100 components of dim 2 -> 11 components of dim 5 -> back (twice, also via 0 components; linear, Euler and quaternion layouts, "
+                 "with and without noise, mixtures and particle sets), and component counts %s reached by constructor, resize +-1, augmentation, copy, move and "
+                 "concatenation (+, +=, a = a + b) of augmented particle sets" % ("63, 64, 65, 128, 257" if quick else "63..65, 127..129, 255..257, 511..513, 1023..1025"),
+                 enum_shapes(quick), True))
     if quick:
         sets.append(("depth2-tiny-grid",
                      "EXHAUSTIVE: two consecutive steps of A' (a fill between them); layouts and resize targets restricted to components 1..2, linear {0, 2}, "
                      "circular 0..1, Euler/quaternion, all classes, initial noise 0",
-                     enum_depth(GRID_TINY, 2, noise=(0,), full=False), True))
+                     enum_depth(GRID_TINY_Q, 2, noise=(0,), full=False), True))
+        sets.append(("depth2-zero-components",
+                     "EXHAUSTIVE: two consecutive steps of A' from every mixture / particle set layout with 0 components (linear 2, circular 0..1, Euler/quaternion), "
+                     "resize targets with components {0, 2}", enum_depth(GRID_TINY_Z, 2, noise=(0,), full=False, lay_k=(0,)), True))
     else:
-        sets.append(("depth2-full-grid",
-                     "EXHAUSTIVE: two consecutive steps of the full alphabet A (a fill between them) for every class and every layout of the property's grid, initial noise 0",
-                     enum_depth(GRID_FULL, 2, noise=(0,), full=True), True))
+        sets.append(("depth2-small-grid",
+                     "EXHAUSTIVE: two consecutive steps of the full alphabet A (a fill between them) for every class; layouts and resize targets: components 0..3, "
+                     "linear 0..2, circular 0..1, Euler/quaternion, initial noise 0 (round 4: the alphabet doubled, the grid was reduced from the property's full grid)",
+                     enum_depth(GRID_SMALL, 2, noise=(0,), full=True), True))
+        sets.append(("depth2-tiny-grid-noise",
+                     "EXHAUSTIVE: two consecutive steps of A' from the tiny grid (components 0..2, linear {0, 2}, circular 0..1) with initial noise 1",
+                     enum_depth(GRID_TINY, 2, noise=(1,), full=False), True))
         sets.append(("depth3-tiny-grid",
-                     "EXHAUSTIVE: three consecutive steps of A' (fills between them); layouts and resize targets restricted to components 1..2, linear {0, 2}, "
+                     "EXHAUSTIVE: three consecutive steps of A' (fills between them); layouts and resize targets restricted to components 1..2, linear 2, "
                      "circular 0..1, Euler/quaternion, all classes, initial noise 0",
-                     enum_depth(GRID_TINY, 3, noise=(0,), full=False), True))
+                     enum_depth(GRID_TINY_3, 3, noise=(0,), full=False), True))
     g = ctx.gen("random")
     nrand = ctx.n(2500, 60000)
     rnd = [gen_random(g, 12) for _ in range(nrand)]
@@ -1185,7 +1386,8 @@ def run(ctx):
         "cases_also_run_on_plain_release_build": sum(a.get("plain", 0) for a in aggs),
     })
     ctx.assumptions += [
-        "components >= 1 (the property's layouts); resize to 0 components is outside the model",
+        "0 components are inside the model; augmentWithNoise on 0 components is modelled as an assertion (the real code aborts in block(); with 0 rows and a 0 x 0 matrix it loops 2^64 times: that single case is not generated)",
+        "size_t overflow in the accessors' address arithmetic (dim_covariance * i + k modulo 2^64) is outside the model; such index combinations are not generated",
         "concatenation of operands with different storage row counts is a caller error (Eigen assertion in the -UNDEBUG build); modelled as Outcome.assert",
         "entries the model leaves unspecified (fresh / non-conservatively resized / appended storage) are not compared",
     ]
